@@ -279,6 +279,11 @@ class Loop:
                     lambda eng_, i, st_, _s=start, _k=k: vint(_s + i * _k))})
             if seqv.k == 'dyn':
                 seqv = eng.as_seq(seqv, st)
+            if seqv.k == 'obj' and eng.contract.hooks.get('iterate'):
+                # a ghost container iterated directly (not a copy of it): the contract says what sequence that is
+                r = eng.contract.hooks['iterate'](eng, seqv, st, s)
+                if r is not None:
+                    seqv = r
             if seqv.k not in ('seq',):
                 raise Unsupported(s, 'invariant loop over %r' % (seqv,))
         idx_name = '__i%d' % ordinal
